@@ -241,6 +241,13 @@ CLAIMED["C12"] = dict(
     technique="Lean 4 theorems over hand-written models + sampled correspondence (sfmodel meta vs sfh under ASan) + property predicate (get after re-open = normalise(set), audio unchanged) on the implementation transcript",
     design_ref="DESIGN.md §7 C12")
 
+# round 4 (NMS ADPCM, appended): the codec left the opaque list
+_NMS = (" NMS ADPCM (16/24/32 kbit/s, RAW and WAV) is modelled bit for bit (SfModel/Nms.lean, NmsFile.lean) and compared byte for byte / item for item by vlib/nms.py; theorems in "
+        "SfProps/C07Nms.lean (codec-core memory safety over all reachable states, output ranges, write-partition independence with the real encoder), C07NmsPack.lean (unpack . pack), "
+        "C06Nms.lean (reads deliver the stream slice for every partition and caller type, end-of-data rule, every sf_seek refused, N <= F < N + 160, short-final-block rule after the repair of KF-NMS-SHORT-BLOCK).")
+for _p in ("C05", "C06", "C07"):
+    CLAIMED[_p]["text"] += _NMS
+
 def main():
     checks = []
     for p in PROPS:
